@@ -7,6 +7,8 @@ AS_H = 'src/tbb/arena_slot.h'
 TD_CPP = 'src/tbb/task_dispatcher.cpp'
 PF_H = 'include/oneapi/tbb/parallel_for.h'
 MB_H = 'src/tbb/mailbox.h'
+CM_H = 'src/tbb/concurrent_monitor.h'
+CQ_H = 'include/oneapi/tbb/concurrent_queue.h'
 
 MUTANTS = [
     # ---------------------------------------------------------------- C01
@@ -64,6 +66,73 @@ MUTANTS = [
     dict(name='c01-invoker-cancel-no-release', prop='C01', clause='D7', edits=[
         ('include/oneapi/tbb/parallel_invoke.h', "    task* cancel(execution_data& ed) override {\n        parent_wait_ctx.release(ed);\n        return nullptr;\n    }\n\n    const Function& my_function;",
          "    task* cancel(execution_data& ed) override {\n        (void)ed;\n        return nullptr;\n    }\n\n    const Function& my_function;")]),
+    # ---------------------------------------------------------------- C02
+    dict(name='c02-prepare_wait-no-fence', prop='C02', clause='D1', edits=[
+        (CM_H, "        // Prepare wait guarantees Write Read memory barrier.\n        // In C++ only full fence covers this type of barrier.\n        atomic_fence_seq_cst();\n", "")]),
+    dict(name='c02-notify-no-fence', prop='C02', clause='D1', edits=[
+        (CM_H, "    void notify( const P& predicate ) {\n        atomic_fence_seq_cst();\n", "    void notify( const P& predicate ) {\n")]),
+    dict(name='c02-epoch-outside-lock', prop='C02', clause='D1', edits=[
+        (CM_H, """        base_node* n;
+        const base_node* end = my_waitset.end();
+        {
+            concurrent_monitor_mutex::scoped_lock l(my_mutex);
+            my_epoch.store(my_epoch.load(std::memory_order_relaxed) + 1, std::memory_order_relaxed);""",
+         """        base_node* n;
+        const base_node* end = my_waitset.end();
+        my_epoch.store(my_epoch.load(std::memory_order_relaxed) + 1, std::memory_order_relaxed);
+        {
+            concurrent_monitor_mutex::scoped_lock l(my_mutex);""")]),
+    dict(name='c02-commit-always-sleep', prop='C02', clause='D1', edits=[
+        (CM_H, "        if (do_it) {\n           node.wait();\n        } else {\n            cancel_wait( node );\n        }",
+         "        node.wait();")]),
+    dict(name='c02-monmutex-unlock-release-store', prop='C02', clause='D1', edits=[
+        ('src/tbb/concurrent_monitor_mutex.h', "        my_flag.exchange(0); // full fence, so the next load is relaxed",
+         "        my_flag.store(0, std::memory_order_release);")]),
+    dict(name='c02-sema-V-wake-on-1', prop='C02', clause='D1', edits=[
+        ('src/tbb/semaphore.h', "        if( my_sem.exchange( 0 )==2 )\n            futex_wakeup_one( &my_sem );",
+         "        if( my_sem.exchange( 0 )==1 )\n            futex_wakeup_one( &my_sem );")]),
+    dict(name='c02-execute-drop-cancel_wait', prop='C02', clause='D2', edits=[
+        ('src/tbb/arena.cpp', "                if (!wo.continue_execution()) {\n                    a->my_exit_monitors.cancel_wait(waiter);\n                    break;",
+         "                if (!wo.continue_execution()) {\n                    break;")]),
+    dict(name='c02-mutex-unlock-store', prop='C02', clause='D3', edits=[
+        ('include/oneapi/tbb/detail/_waitable_atomic.h', "    T exchange(T desired) noexcept {\n        return my_atomic.exchange(desired);",
+         "    T exchange(T desired) noexcept {\n        T o = my_atomic.load(std::memory_order_relaxed); my_atomic.store(desired, std::memory_order_release); return o;")]),
+    dict(name='c02-rw-unlock-acqrel', prop='C02', clause='D3', edits=[
+        ('include/oneapi/tbb/rw_mutex.h', "        state_type curr_state = (m_state &= READERS | WRITER_PENDING); // Returns current state",
+         "        state_type curr_state = m_state.fetch_and(READERS | WRITER_PENDING, std::memory_order_acq_rel) & (READERS | WRITER_PENDING);")]),
+    dict(name='c02-rw-unlock_shared-one-branch', prop='C02', clause='D4', edits=[
+        ('include/oneapi/tbb/rw_mutex.h', """        if (curr_state & (WRITER_PENDING)) {
+            r1::notify_by_address(this, WRITER_CONTEXT);
+        } else {
+            // It's possible that WRITER sleeps without WRITER_PENDING,
+            // because other thread might clear this bit at upgrade()
+            r1::notify_by_address_all(this);
+        }""", """        if (curr_state & (WRITER_PENDING)) {
+            r1::notify_by_address(this, WRITER_CONTEXT);
+        }""")]),
+    dict(name='c02-cbq-push-wrong-tag', prop='C02', clause='D5', edits=[
+        (CQ_H, "        my_queue_representation->choose(ticket).push(ticket, *my_queue_representation, my_allocator, std::forward<Args>(args)...);\n        r1::notify_bounded_queue_monitor(my_monitors, cbq_items_avail_tag, ticket);\n    }\n\n    template <typename... Args>\n    bool internal_push_if_not_full",
+         "        my_queue_representation->choose(ticket).push(ticket, *my_queue_representation, my_allocator, std::forward<Args>(args)...);\n        r1::notify_bounded_queue_monitor(my_monitors, cbq_slots_avail_tag, ticket);\n    }\n\n    template <typename... Args>\n    bool internal_push_if_not_full")]),
+    dict(name='c02-cbq-trypop-no-notify', prop='C02', clause='D4', edits=[
+        (CQ_H, "        if (present) {\n            r1::notify_bounded_queue_monitor(my_monitors, cbq_slots_avail_tag, ticket);\n        }\n        return present;",
+         "        (void)ticket;\n        return present;")]),
+    dict(name='c02-abort-counter-after', prop='C02', clause='D5', edits=[
+        (CQ_H, "        ++my_abort_counter;\n        r1::abort_bounded_queue_monitors(my_monitors);", "        r1::abort_bounded_queue_monitors(my_monitors);\n        ++my_abort_counter;")]),
+    dict(name='c02-enqueue-advertise-first', prop='C02', clause='D6', edits=[
+        ('src/tbb/arena.cpp', "    my_fifo_task_stream.push( &t, random_lane_selector(td.my_random) );\n    advertise_new_work<work_enqueued>();",
+         "    advertise_new_work<work_enqueued>();\n    my_fifo_task_stream.push( &t, random_lane_selector(td.my_random) );")]),
+    dict(name='c02-advertise-no-fence', prop='C02', clause='D6', edits=[
+        ('src/tbb/arena.h', "    if (work_type != work_spawned) {\n        // Local memory fence here and below is required to avoid missed wakeups; see the comment below.\n        // Starvation resistant tasks require concurrency, so missed wakeups are unacceptable.\n        atomic_fence_seq_cst();\n    }",
+         "")]),
+    dict(name='c02-has_tasks-skip-resume', prop='C02', clause='D6', edits=[
+        ('src/tbb/arena.cpp', "    tasks_are_available = tasks_are_available || has_enqueued_tasks() || !my_resume_task_stream.empty();",
+         "    tasks_are_available = tasks_are_available || has_enqueued_tasks();")]),
+    dict(name='c02-asleep-insert-unlocked', prop='C02', clause='D7', edits=[
+        ('src/tbb/private_server.cpp', "    asleep_list_mutex_type::scoped_lock lock;\n    if( !lock.try_acquire(my_asleep_list_mutex) )\n        return false;",
+         "    { asleep_list_mutex_type::scoped_lock lock;\n    if( !lock.try_acquire(my_asleep_list_mutex) )\n        return false; }")]),
+    dict(name='c02-delegated-notify-before-release', prop='C02', clause='D4', edits=[
+        ('src/tbb/arena.cpp', "        m_wait_ctx.release(); // must precede the wakeup\n        m_monitor.notify([this] (std::uintptr_t ctx) {\n            return ctx == std::uintptr_t(&m_delegate);\n        }); // do not relax, it needs a fence!",
+         "        m_monitor.notify([this] (std::uintptr_t ctx) {\n            return ctx == std::uintptr_t(&m_delegate);\n        }); // do not relax, it needs a fence!\n        m_wait_ctx.release(); // must precede the wakeup")]),
 ]
 
 BENIGN = [
@@ -75,4 +144,9 @@ BENIGN = [
     dict(name='c01-b-finalize-helper', prop='C01', edits=[
         (PF_H, "    finalize(ed);\n    return nullptr;\n}\n\n//! Calls the function with values from range [begin, end) with a step provided",
          "    auto do_fin = [&] { finalize(ed); };\n    do_fin();\n    return nullptr;\n}\n\n//! Calls the function with values from range [begin, end) with a step provided")]),
+    dict(name='c02-b-extra-fence', prop='C02', edits=[
+        (CM_H, "    void notify_one() {\n        atomic_fence_seq_cst();", "    void notify_one() {\n        atomic_fence_seq_cst();\n        std::atomic_thread_fence(std::memory_order_seq_cst);")]),
+    dict(name='c02-b-unlock-manual-lock', prop='C02', edits=[
+        ('src/tbb/thread_request_serializer.cpp', "void thread_request_serializer::set_active_num_workers(int soft_limit) {\n    mutex_type::scoped_lock lock(my_mutex);",
+         "void thread_request_serializer::set_active_num_workers(int soft_limit) {\n    mutex_type::scoped_lock lock;\n    lock.acquire(my_mutex);")]),
 ]
